@@ -365,3 +365,199 @@ def gen_cli_case(r, maxnodes):
     sheet = SHEET_HEAD % (f.xml, g.xml) + "\n".join(body) + '\n<xsl:text>&#10;</xsl:text>\n</xsl:template>\n</xsl:stylesheet>\n'
     return {"files": {"m.xml": m.document(), "b.xml": b.document(), "s.xsl": sheet}, "queries": queries,
             "docs": {"m": m, "b": b, "r": f, "s": g}}
+
+
+# ---------------------------------------------------------------------------------------------
+# event sequences for the two source-tree builders (harness request `build`)
+
+def gen_events(r, mode, maxev):
+    """balanced event string; F: anything; D/B: comments/PIs, one document element, comments/PIs"""
+    def content(budget, depth):
+        out = ""
+        n = r.range(0, budget)
+        while n > 0:
+            k = r.weighted([("t", 8), ("c", 3), ("p", 2), ("s", 4), ("w", 1)] + ([("d", 1), ("r", 1)] if mode != "B" else []))
+            if k == "s" and depth < 4:
+                na = r.weighted([(0, 3), (1, 2), (2, 1)])
+                inner = content(min(n - 1, 4), depth + 1)
+                out += "s%d%sx" % (na, inner)
+                n -= 1 + len(inner)
+            elif k != "s":
+                out += k
+                n -= 1
+            else:
+                n -= 1
+        return out
+    if mode == "F":
+        return content(maxev, 0) or "t"
+    pre = "".join(r.choice("cp") for _ in range(r.below(3)))
+    post = "".join(r.choice("cp") for _ in range(r.below(3)))
+    return "%ss%d%sx%s" % (pre, r.below(3), content(maxev, 1), post)
+
+
+def all_event_seqs(maxlen):
+    """every fragment event sequence of at most maxlen events (elements closed at the end)"""
+    alpha = ["t", "c", "p", "s0", "s1", "x", "d", "r", "w"]
+    out = []
+
+    def go(seq, depth, n):
+        if n > 0:
+            out.append("".join(seq) + "x" * depth)
+        if n == maxlen:
+            return
+        for a in alpha:
+            if a == "x":
+                if depth > 0:
+                    go(seq + [a], depth - 1, n + 1)
+            elif a[0] == "s":
+                go(seq + [a], depth + 1, n + 1)
+            else:
+                go(seq + [a], depth, n + 1)
+    go([], 0, 0)
+    return sorted(set(out), key=lambda x: (len(x), x))
+
+
+def expected_built(mode, ev):
+    """(kinds, parents) of the tree the builder must produce: buffered character data (t, d, and what follows r) becomes
+    ONE text node, created when the next non-character event arrives and placed before that event's node"""
+    kinds = ["F" if mode == "F" else "D"]
+    parents = [-1]
+    stack = [0]
+    buf = False
+    seen_root = False
+    i = 0
+
+    def flush():
+        nonlocal buf
+        if buf:
+            kinds.append("t"); parents.append(stack[-1]); buf = False
+    while i < len(ev):
+        c = ev[i]
+        if c in "td":
+            buf = True
+        elif c == "s":
+            flush()
+            na = int(ev[i + 1]); i += 1
+            me = len(kinds)
+            kinds.append("e"); parents.append(stack[-1])
+            if mode == "B" and not seen_root:
+                na += 1             # the content handler adds xmlns:xml to the document element
+            seen_root = True
+            for _ in range(na):
+                kinds.append("a"); parents.append(me)
+            stack.append(me)
+        elif c == "x":
+            flush(); stack.pop()
+        elif c in "cp":
+            flush(); kinds.append(c); parents.append(stack[-1])
+        elif c == "w":
+            flush(); kinds.append("t"); parents.append(stack[-1])
+        elif c == "r":
+            flush(); kinds.append("p"); parents.append(stack[-1]); buf = True
+        i += 1
+    flush()
+    return "".join(kinds), parents
+
+
+# ---------------------------------------------------------------------------------------------
+# result tree fragments built from every kind of result event in every adjacency (stylesheet stage)
+
+def _rtf_item(r, kind, uid, depth, earlier):
+    n = uid[0] = uid[0] + 1
+    if kind == "text":
+        return r.choice(["<xsl:text>t%d</xsl:text>" % n, "t%d" % n, "<xsl:value-of select=\"'t%d'\"/>" % n])
+    if kind == "comment":
+        return "<xsl:comment>c%d</xsl:comment>" % n
+    if kind == "pi":
+        return "<xsl:processing-instruction name=\"p%d\">d</xsl:processing-instruction>" % n
+    if kind == "copysrc":
+        return "<xsl:copy-of select=\"%s\"/>" % r.choice(["/e", "/e/e[1]", "/e/text()[1]", "/e/e[last()]", "/e/node()", "//e[e][1]"])
+    if kind == "copyrtf" and earlier:
+        return "<xsl:copy-of select=\"$%s\"/>" % r.choice(earlier)
+    if kind == "nested" and depth < 3:
+        return "<xsl:variable name=\"n%d\">%s</xsl:variable><xsl:copy-of select=\"$n%d\"/>" % (
+            n, gen_rtf_body(r, uid, depth + 1, earlier, r.range(1, 4)), n)
+    if kind == "apply":
+        return "<xsl:for-each select=\"/e/e[1]\"><xsl:copy><xsl:text>t%d</xsl:text><xsl:comment>c%d</xsl:comment></xsl:copy></xsl:for-each>" % (n, n)
+    # element
+    attrs = ""
+    if r.chance(1, 3):
+        attrs += " a%d=\"v\"" % n
+    if r.chance(1, 5):
+        attrs += " xmlns:q%d=\"urn:q%d\"" % (n, n)
+    inner = ""
+    if r.chance(1, 4):
+        inner += "<xsl:attribute name=\"b%d\">w</xsl:attribute>" % n
+    if r.chance(1, 6):
+        inner += "<xsl:copy-of select=\"/e/@k\"/>"
+    if depth < 3:
+        inner += gen_rtf_body(r, uid, depth + 1, earlier, r.range(0, 4))
+    if r.chance(1, 4):
+        return "<xsl:element name=\"e%d\">%s</xsl:element>" % (n, inner)
+    return "<e%d%s>%s</e%d>" % (n, attrs, inner, n)
+
+
+RTF_KINDS = [("text", 9), ("comment", 4), ("pi", 3), ("element", 5), ("copysrc", 2), ("copyrtf", 2), ("nested", 2), ("apply", 1)]
+
+
+def gen_rtf_body(r, uid, depth, earlier, nitems):
+    return "".join(_rtf_item(r, r.weighted(RTF_KINDS), uid, depth, earlier) for _ in range(nitems))
+
+
+def rtf_adjacency_corpus():
+    """text immediately followed by each kind of event (and each kind followed by text), at the top of a fragment and
+    inside an element"""
+    kinds = ["comment", "pi", "element", "copysrc", "nested", "apply", "text"]
+
+    class Fixed:
+        def choice(self, xs): return xs[0]
+        def chance(self, a, b): return False
+        def range(self, a, b): return a
+        def weighted(self, pairs): return pairs[0][0]
+        def below(self, n): return 0
+    f = Fixed()
+    uid = [0]
+    bodies = []
+    for k in kinds:
+        item = _rtf_item(f, k, uid, 2, [])
+        t1 = _rtf_item(f, "text", uid, 2, [])
+        t2 = _rtf_item(f, "text", uid, 2, [])
+        bodies.append(t1 + item + t2)
+        n = uid[0] = uid[0] + 1
+        bodies.append("<e%d>%s%s%s</e%d>" % (n, t1, item, t2, n))
+    return bodies
+
+
+RTF_SHEET_HEAD = '''<xsl:stylesheet version="1.0" xmlns:xsl="http://www.w3.org/1999/XSL/Transform" xmlns:exsl="http://exslt.org/common" exclude-result-prefixes="exsl">
+<xsl:output method="text"/>
+<xsl:template match="*" mode="lab">[E:<xsl:value-of select="name()"/><xsl:value-of select="@i"/>]</xsl:template>
+<xsl:template match="text()" mode="lab">[T:<xsl:value-of select="."/>]</xsl:template>
+<xsl:template match="comment()" mode="lab">[C:<xsl:value-of select="."/>]</xsl:template>
+<xsl:template match="processing-instruction()" mode="lab">[P:<xsl:value-of select="name()"/>]</xsl:template>
+<xsl:template match="@*" mode="lab">[A:<xsl:value-of select="name()"/>]</xsl:template>
+<xsl:template match="*" mode="walk"><xsl:apply-templates select="." mode="lab"/><xsl:for-each select="@*"><xsl:apply-templates select="." mode="lab"/></xsl:for-each><xsl:apply-templates select="node()" mode="walk"/></xsl:template>
+<xsl:template match="text()|comment()|processing-instruction()" mode="walk"><xsl:apply-templates select="." mode="lab"/></xsl:template>
+<xsl:template match="/">
+'''
+
+
+def gen_rtf_case(r, nvars, corpus=False):
+    """stylesheet that builds result tree fragments v1..vn and prints, for each, the structural pre-order walk (W), the
+    nodes as `//node()|//@*` delivers them (U: merged by stored index) and a union of per-kind selections (V)"""
+    uid = [0]
+    bodies = rtf_adjacency_corpus() if corpus else []
+    earlier = []
+    decl, out = [], []
+    if not corpus:
+        for _ in range(nvars):
+            bodies.append(gen_rtf_body(r, uid, 0, earlier, r.range(1, 6)))
+            earlier = ["v%d" % (len(bodies))]       # the next body may copy the previous fragment
+    for k, b in enumerate(bodies, 1):
+        decl.append('<xsl:variable name="v%d">%s</xsl:variable>' % (k, b))
+        ns = "exsl:node-set($v%d)" % k
+        out.append('<xsl:text>&#10;W%d:</xsl:text><xsl:apply-templates select="%s/node()" mode="walk"/>' % (k, ns))
+        out.append('<xsl:text>&#10;U%d:</xsl:text><xsl:for-each select="%s//node()|%s//@*"><xsl:apply-templates select="." mode="lab"/></xsl:for-each>' % (k, ns, ns))
+        out.append('<xsl:text>&#10;V%d:</xsl:text><xsl:for-each select="%s//comment()|%s//text()|%s//processing-instruction()|%s//@*|%s//*">'
+                   '<xsl:apply-templates select="." mode="lab"/></xsl:for-each>' % (k, ns, ns, ns, ns, ns))
+    sheet = RTF_SHEET_HEAD + "\n".join(decl) + "\n" + "\n".join(out) + '\n<xsl:text>&#10;</xsl:text>\n</xsl:template>\n</xsl:stylesheet>\n'
+    return sheet, bodies
